@@ -77,6 +77,25 @@ def n_ops(e):
 
 # ------------------------------------------------------------ conversions
 MIXED = {1: 1, 2: "1", 3: 2, 4: "2", 5: 1.5, 6: "1.5"}     # distinct symbols that print alike
+# equal but not identical: the input items are fresh copies of the pattern's atoms (words split or decoded at run time,
+# integers beyond CPython's small-int cache, tuples) — equality, not object identity, decides (seeded change C13-10)
+DISTINCT_OBJECTS = {1: "alpha", 2: 1000, 3: (1, 2), 4: "caf\u00e9 au lait", 5: 2.5, 6: 10 ** 30}
+
+
+def fresh_copy(x):
+    if isinstance(x, str):
+        return x[:1] + x[1:] if len(x) >= 2 else x
+    if isinstance(x, bool):
+        return x
+    if isinstance(x, int):
+        return int(str(x))
+    if isinstance(x, float):
+        return float(repr(x))
+    if isinstance(x, tuple):
+        return tuple(list(x))
+    return x
+
+
 COLLIDING = {1: -1, 2: -2, 3: 0, 4: 2 ** 61 - 1, 5: 2 ** 61, 6: 1}     # distinct symbols with equal hashes (CPython: hash(-1) == hash(-2), hash(2**61-1) == 0, hash(2**61) == 1)
 
 
@@ -303,12 +322,14 @@ def guarded(fn):
         return [1, ERR[type(ex).__name__]]
 
 
-def impl_obs(e, w, symmap=None):
+def impl_obs(e, w, symmap=None, fresh=False):
     """[match, nfa_match, starts_with, find_all] in the encoding of Gsm/Dfa.v engine_obs,
     plus the raw find_all records (start, end, tokens) for the oracle"""
     from codelimit.common.gsm import matcher
     ex = to_impl(e, symmap)
     w = list(w) if symmap is None else [symmap[x] for x in w]
+    if fresh:
+        w = [fresh_copy(x) for x in w]
     m = guarded(lambda: matcher.match(to_impl(e, symmap), w) is not None)
     n = guarded(lambda: bool(matcher.nfa_match(to_impl(e, symmap), w)))
 
